@@ -1,9 +1,10 @@
 /-
   C14  Scaling an interval by a float truncates toward zero and classifies bad operands.
-  (First layer: classification of every operand, for all 2^64 bit patterns of the scalar.
-   The numeric layer – error bound, exactness for integer factors, sign symmetry – is in Lemmas/Float.)
+  Classification of every operand for all 2^64 bit patterns of the scalar; exact products for integer factors below
+  2^53; sign symmetry; the half-ulp property of each rounding.
 -/
 import SqlDt.Lemmas.Div
+import SqlDt.Lemmas.Float
 namespace SqlDt.C14
 open SqlDt Gen
 
@@ -95,6 +96,110 @@ theorem toI64_trunc (s : Bool) (m : Nat) (e : Int) :
     F64.toI64 (.fin s m e) =
       let t := F64.truncInt s m e
       if t < I64_MIN then I64_MIN else if t > I64_MAX then I64_MAX else t := rfl
+
+/-! ## Numeric layer (soft-float lemmas of Lemmas/Float) -/
+
+theorem clamp_narrow (lo hi lo' hi' t x : Int) (h : (if t < lo then lo else if t > hi then hi else t) = x)
+    (h1 : lo < x) (h2 : x < hi) (h3 : lo' ≤ x) (h4 : x ≤ hi') :
+    (if t < lo' then lo' else if t > hi' then hi' else t) = x := by
+  by_cases c1 : t < lo
+  · rw [if_pos c1] at h; omega
+  · rw [if_neg c1] at h
+    by_cases c2 : t > hi
+    · rw [if_pos c2] at h; omega
+    · rw [if_neg c2] at h; subst h
+      rw [if_neg (by omega), if_neg (by omega)]
+
+theorem ofInt_zero : F64.ofInt 0 = F64.fin false 0 F64.EMIN := by decide
+
+theorem ofInt_fin (k : Int) (hk : k.natAbs ≤ 9007199254740992) : ∃ s m e, F64.ofInt k = F64.fin s m e := by
+  have ht := Lemmas.F64.toI64_ofInt k hk
+  cases hf : F64.ofInt k with
+  | nan =>
+    by_cases h0 : k = 0
+    · subst h0; rw [ofInt_zero] at hf; cases hf
+    · rw [hf] at ht; simp [F64.toI64, F64.toIntSat] at ht; exact absurd ht.symm h0
+  | inf s => rw [hf] at ht; unfold F64.toI64 F64.toIntSat at ht; cases s <;> simp [I64_MIN, I64_MAX] at ht <;> omega
+  | fin s m e => exact ⟨s, m, e, rfl⟩
+
+theorem mul_zero_fin (s : Bool) (m : Nat) (e : Int) :
+    F64.mul (F64.fin false 0 F64.EMIN) (F64.fin s m e) = F64.zero (false != s) ∧
+    F64.mul (F64.fin s m e) (F64.fin false 0 F64.EMIN) = F64.zero (s != false) := by
+  constructor <;> simp [F64.mul, F64.round]
+
+/-- Exact products: multiplying an interval by an integer-valued double gives exactly `v·k` whenever `v`, `k` and the
+    product are at most 2^53 in magnitude (such a product is always inside the interval range). -/
+theorem dt_mul_integer_exact (v k : Int) (hv : v.natAbs ≤ 9007199254740992) (hk : k.natAbs ≤ 9007199254740992)
+    (hvk : (v * k).natAbs ≤ 9007199254740992) :
+    IntervalDT.mulF64 v (F64.ofInt k) = .ok (v * k) := by
+  have hr : IntervalDT.isValidUsecs (v * k) := by
+    unfold IntervalDT.isValidUsecs INTERVAL_MAX_USECONDS; omega
+  by_cases hz : v * k = 0
+  · rw [hz]
+    rcases Int.mul_eq_zero.1 hz with h0 | h0 <;> subst h0
+    · obtain ⟨s, m, e, hf⟩ := ofInt_fin k hk
+      rw [dt_mul_classify, hf, ofInt_zero, (mul_zero_fin s m e).1]
+      cases s <;> decide
+    · obtain ⟨s, m, e, hf⟩ := ofInt_fin v hv
+      rw [dt_mul_classify, hf, ofInt_zero, (mul_zero_fin s m e).2]
+      cases s <;> decide
+  · rw [dt_mul_classify, Lemmas.F64.mul_ofInt_exact v k hv hk hvk hz]
+    have ht := Lemmas.F64.toI64_ofInt (v * k) hvk
+    obtain ⟨s, m, e, hf⟩ := ofInt_fin (v * k) hvk
+    rw [hf] at ht
+    simp only [hf, ht, hr, ↓reduceIte]
+
+/-- Same for year-month intervals (months fit in i32, the product must stay within the interval range). -/
+theorem ym_mul_integer_exact (v k : Int) (hv : v.natAbs ≤ 9007199254740992) (hk : k.natAbs ≤ 9007199254740992)
+    (hvk : (v * k).natAbs ≤ 2136000000) :
+    IntervalYM.mulF64 v (F64.ofInt k) = .ok (v * k) := by
+  have hvk' : (v * k).natAbs ≤ 9007199254740992 := by omega
+  have hr : IntervalYM.isValidMonths (v * k) := by
+    unfold IntervalYM.isValidMonths INTERVAL_MAX_MONTH; omega
+  have key : ∀ s m e, F64.ofInt (v * k) = F64.fin s m e → F64.toI32 (F64.fin s m e) = v * k := by
+    intro s m e hf
+    have ht := Lemmas.F64.toI64_ofInt (v * k) hvk'
+    rw [hf] at ht
+    exact clamp_narrow I64_MIN I64_MAX I32_MIN I32_MAX _ _ ht (by unfold I64_MIN; omega) (by unfold I64_MAX; omega)
+      (by unfold I32_MIN; omega) (by unfold I32_MAX; omega)
+  by_cases hz : v * k = 0
+  · rw [hz]
+    rcases Int.mul_eq_zero.1 hz with h0 | h0 <;> subst h0
+    · obtain ⟨s, m, e, hf⟩ := ofInt_fin k hk
+      rw [ym_mul_classify, hf, ofInt_zero, (mul_zero_fin s m e).1]
+      cases s <;> decide
+    · obtain ⟨s, m, e, hf⟩ := ofInt_fin v hv
+      rw [ym_mul_classify, hf, ofInt_zero, (mul_zero_fin s m e).2]
+      cases s <;> decide
+  · rw [ym_mul_classify, Lemmas.F64.mul_ofInt_exact v k hv hk hvk' hz]
+    obtain ⟨s, m, e, hf⟩ := ofInt_fin (v * k) hvk'
+    simp only [hf, key s m e hf, hr, ↓reduceIte]
+
+
+/-- Sign symmetry of the arithmetic: `(−x)·k = −(x·k) = x·(−k)` at the level of doubles (round-to-nearest-even and
+    truncation toward zero are odd functions), for every interval value `x ≠ 0` and every double `k`. -/
+theorem mul_sign_symmetry (v : Int) (hv : v ≠ 0) (k : F64) :
+    F64.mul (F64.ofInt (-v)) k = F64.neg (F64.mul (F64.ofInt v) k) ∧
+    F64.mul (F64.ofInt v) (F64.neg k) = F64.neg (F64.mul (F64.ofInt v) k) ∧
+    F64.div (F64.ofInt (-v)) k = F64.neg (F64.div (F64.ofInt v) k) ∧
+    F64.div (F64.ofInt v) (F64.neg k) = F64.neg (F64.div (F64.ofInt v) k) := by
+  rw [Lemmas.F64.ofInt_neg v hv]
+  exact ⟨Lemmas.F64.mul_neg_left _ _, Lemmas.F64.mul_neg_right _ _, Lemmas.F64.div_neg_left _ _, Lemmas.F64.div_neg_right _ _⟩
+
+/-- …and the truncating cast commutes with negation (inside any symmetric range). -/
+theorem trunc_neg (x : F64) (b : Int) (hb : 0 ≤ b) : F64.toIntSat (-b) b (F64.neg x) = -(F64.toIntSat (-b) b x) := by
+  have := Lemmas.F64.toIntSat_neg (-b) b x (by omega)
+  simpa using this
+
+/-- Round-to-nearest-even, stated without division: the rounded significand/exponent of a positive rational `num/den`
+    is canonical and within half a unit in the last place (hence relative error ≤ 2^-53 per operation in the normal
+    range; `mul_f64`/`div_f64` perform two such roundings: the conversion of the interval and the product/quotient). -/
+theorem rounding_half_ulp (num den m : Nat) (e : Int) (hn : 0 < num) (hd : 0 < den)
+    (h : F64.roundPos num den = some (m, e)) :
+    m < F64.P53 ∧ F64.EMIN ≤ e ∧ e ≤ F64.EMAX ∧ (F64.P52 ≤ m ∨ e = F64.EMIN) ∧
+    2 * ((m * F64.pow2 e.toNat * den : Nat) - (num * F64.pow2 (-e).toNat : Nat) : Int).natAbs
+      ≤ F64.pow2 e.toNat * den :=
+  Lemmas.F64.roundPos_spec num den m e hn hd h
 
 example : IntervalDT.mulF64 10 (F64.ofInt 3) = .ok 30 ∧ IntervalDT.divF64 10 (F64.ofInt 4) = .ok 2 ∧
     IntervalDT.divF64 (-10) (F64.ofInt 4) = .ok (-2) ∧ IntervalDT.divF64 10 (F64.zero true) = .error .DivideByZero ∧
